@@ -90,6 +90,9 @@ class Output(BaseOutput):
 
         self.output_period = normalize_period(output_period)
         self.output_period_step = self.output_period // timer.dt
+        if self.output_period_step < 1:
+            logger.critical("The output period must be at least one time step")
+            raise SystemExit(3)
         if timer.time_reversal:
             self.output_period = -self.output_period
         logger.info("  Output period: %s", str(self.output_period))
